@@ -61,6 +61,19 @@ def judge_seq(ctx, outs, what, atomic=True, exact=True, filt=None):
         out, summ = job
         return ctx.validate_batch(os.path.join(out, "traces.ndjson"), summ, atomic=atomic, exact=exact)
 
+    # implementation level: the merged hook + API stream of the steered scripts replayed on Store.tla
+    # (one deterministic step per event, about 400 events/s: the time limit grows with the batch)
+    def impl_one(job):
+        out, summ = job
+        if not summ.get("impl_offsets"):
+            return None
+        cfg = tlc.fill("TraceStore.cfg.tmpl", KEYS=", ".join(map(str, range(1, summ["keys"] + 1))))
+        to = max(600, summ.get("impl_events", 0) // 100)
+        return ctx.validate_batch(os.path.join(out, "impl.ndjson"), dict(offsets=summ["impl_offsets"]), timeout=to,
+                                  validator=lambda pth, t: tlc.validate_trace("TraceStore", cfg, pth, timeout=t))
+
+    impl_results = dict(zip([j[0] for j in jobs], ctx.par(impl_one, jobs, workers=8)))
+
     for (out, summ), (acc, rej) in zip(jobs, ctx.par(one, jobs, workers=8)):
         stats["traces"] += summ["traces"]
         stats["events"] += summ["events"]
@@ -93,10 +106,9 @@ def judge_seq(ctx, outs, what, atomic=True, exact=True, filt=None):
                                   scripts[i]["alphabet"], scripts[i]["mode"]), match={"kind": "trace"})
         # implementation level: the merged hook + API stream of the steered scripts replayed on Store.tla
         if summ.get("impl_offsets"):
-            isum = dict(offsets=summ["impl_offsets"])
             cfg = tlc.fill("TraceStore.cfg.tmpl", KEYS=", ".join(map(str, range(1, summ["keys"] + 1))))
             ip = os.path.join(out, "impl.ndjson")
-            iacc, irej = ctx.validate_batch(ip, isum, validator=lambda pth, to: tlc.validate_trace("TraceStore", cfg, pth, timeout=to))
+            iacc, irej = impl_results[out]
             stats["impl_accepted"] = stats.get("impl_accepted", 0) + iacc
             stats["impl_events"] = stats.get("impl_events", 0) + summ.get("impl_events", 0)
             # self-test of the binding (once per check): a corrupted scalar must be rejected
